@@ -353,6 +353,29 @@ func (c *Ctx) tkRun(kind, part string) *tkVerdict {
 				}
 				tkCheckBase(kind, s, r.toks, v, h.lastPath)
 				fresh[s] = renderToks(r.toks)
+				// the string-list entry point hands out exactly the token values
+				if part == "base" && (i >= nBounded || len([]rune(s)) <= 1) {
+					if sv, out := h.call("TokenizeBufferToStrings", s); out.kind == "panic" {
+						v.note("lossless", show+": TokenizeBufferToStrings panics: "+out.why, "")
+					} else if out.kind == "ok" {
+						var got []string
+						okAll := true
+						if sl, isSl := sv.(mSlice); isSl {
+							for _, e := range sl.arr {
+								str, isStr := e.(string)
+								okAll = okAll && isStr
+								got = append(got, str)
+							}
+						}
+						var want []string
+						for _, t := range r.toks {
+							want = append(want, t.val)
+						}
+						if okAll && fmt.Sprintf("%q", got) != fmt.Sprintf("%q", want) {
+							v.note("lossless", fmt.Sprintf("%s: TokenizeBufferToStrings gives %q; the token values are %q", show, got, want), "")
+						}
+					}
+				}
 				// options: bounded strings up to optLen and the pool
 				if inOptions && part == "options" {
 					from, dec, why := h.quoteInfo(r.toks)
@@ -452,6 +475,30 @@ func (c *Ctx) tkRun(kind, part string) *tkVerdict {
 						v.note("reuse", "", "")
 					}
 				}
+				for k := 2; k <= 8; k++ {
+					if _, why := h.pull(s1, k%2, k); why != "" {
+						break
+					}
+					s2 := pool[(i+3*k)%len(pool)]
+					r2 := h.tokenize(s2)
+					if r2.kind == "ok" && fresh[s2] != "" && renderToks(r2.toks) != fresh[s2] {
+						v.note("reuse", fmt.Sprintf("%s tokenizer on %q after an iteration over %q that was abandoned after %d tokens gives [%s]; a fresh instance gives [%s]", kind, s2, s1, k, renderToks(r2.toks), fresh[s2]), "")
+					} else {
+						v.note("reuse", "", "")
+					}
+				}
+				// one scanner object, rewound and handed to the tokenizer again after k tokens were taken from it
+				for _, k := range []int{0, 1, 2, 1 << 30} {
+					got, why := h.pullRewound(s1, 1, k)
+					switch {
+					case why != "":
+						v.note("reuse", "", why)
+					case got != fresh[s1] && fresh[s1] != "":
+						v.note("reuse", fmt.Sprintf("%s tokenizer on %q read again from the same scanner object (rewound with Reset and assigned with SetReader after %d tokens were taken) gives [%s]; a fresh instance gives [%s]", kind, s1, min(k, 99), got, fresh[s1]), "")
+					default:
+						v.note("reuse", "", "")
+					}
+				}
 				if _, why := h.pull(s1, 1, 1); why == "" {
 					s2 := pool[(i+7)%len(pool)]
 					r2 := h.tokenize(s2)
@@ -482,6 +529,29 @@ func (h *tkHarness) pull(s string, polls, max int) (string, string) {
 	if out.kind != "ok" {
 		return "", "NewStringScanner: " + out.why
 	}
+	return h.pullOn(sc, polls, max)
+}
+
+// pullRewound: take up to k tokens from a scanner, rewind that same scanner object, assign it again and read everything.
+func (h *tkHarness) pullRewound(s string, polls, k int) (string, string) {
+	h.m.steps = 0
+	sc, out := h.m.Call(h.c.MustFunc("io", "", "NewStringScanner"), s)
+	if out.kind != "ok" {
+		return "", "NewStringScanner: " + out.why
+	}
+	if _, why := h.pullOn(sc, polls, k); why != "" {
+		return "", why
+	}
+	scT := h.c.MustFunc("io", "", "NewStringScanner").Signature.Results().At(0).Type()
+	if f := h.c.lookupMethod(scT, "Reset"); f != nil {
+		if _, out := h.m.Call(f, sc); out.kind != "ok" {
+			return "", "Reset: " + out.why
+		}
+	}
+	return h.pullOn(sc, 0, 1<<30)
+}
+
+func (h *tkHarness) pullOn(sc mv, polls, max int) (string, string) {
 	scT := h.c.MustFunc("io", "", "NewStringScanner").Signature.Results().At(0).Type()
 	if _, out := h.call("SetReader", mIface{t: scT, v: sc}); out.kind != "ok" {
 		return "", "SetReader: " + out.why
@@ -535,7 +605,7 @@ func (h *tkHarness) pull(s string, polls, max int) (string, string) {
 
 func init() {
 	register(&Rule{ID: "TOK.lossless", Floor: 4,
-		Doc: "each built-in tokenizer evaluated abstractly (TokenizeBuffer on the machine, all options off) over every string up to a bounded length over the alphabet of state-selecting character classes and a pool of longer strings: the token values concatenate to the input, only the final end-of-input token is empty",
+		Doc: "each built-in tokenizer evaluated abstractly (TokenizeBuffer on the machine, all options off) over every string up to a bounded length over the alphabet of state-selecting character classes and a pool of longer strings: the token values concatenate to the input, only the final end-of-input token is empty, and TokenizeBufferToStrings returns exactly those values",
 		Run: func(c *Ctx) []*Obligation {
 			return tkEmit(c, "TOK.lossless", "lossless", "values concatenate to the input")
 		}})
@@ -550,7 +620,7 @@ func init() {
 			return tkEmit(c, "TOK.options", "options", "optioned streams equal the rewritten option-free stream")
 		}})
 	register(&Rule{ID: "TOK.reuse", Floor: 4,
-		Doc: "every ordered pair of a pool (every multi-character symbol, every token class, unterminated literals) on one instance against a fresh instance; pull iteration with 0, 1 and 3 HasNextToken queries per token against TokenizeBuffer; a new input after an abandoned iteration",
+		Doc: "every ordered pair of a pool (every multi-character symbol, every token class, unterminated literals) on one instance against a fresh instance; pull iteration with 0, 1 and 3 HasNextToken queries per token against TokenizeBuffer; a new input after an iteration abandoned after 0..8 tokens; the same scanner object rewound and assigned again",
 		Run: func(c *Ctx) []*Obligation {
 			return tkEmit(c, "TOK.reuse", "reuse", "results do not depend on history or on has-next queries")
 		}})
